@@ -2,6 +2,15 @@
 MT_T = "crates/jxl-modular/src/transform.rs"; MT_TM = "kani/jxl-modular/transform.rs"
 MT_P = "crates/jxl-modular/src/transform/palette.rs"; MT_PM = "kani/jxl-modular/palette.rs"
 
+_MT_CRATE_ATTRS = ["#![feature(allocator_api)]"]  # transform.rs harness module has a generic Vec::push model (see there);
+# inserted as line 1 of the scratch copy of crates/jxl-modular/src/lib.rs: line numbers reported for THAT file are +1.
+
+
+def _MT(id, props, anchor, module, harness, kind, fns, contract, **kw):
+    K(id, props, "jxl-modular", anchor, module, harness, kind, fns, contract, **kw)
+    OBLIGATIONS[-1]["crate_attrs"] = _MT_CRATE_ATTRS
+
+
 # ---- transform.rs: default squeeze parameters ----------------------------------------------------
 _DSQ = ("requires: channel list non-empty, nb_meta_channels < number of channels (lib.rs:44,151; preserved by every transform, see "
         "mt.sq_meta_step_* / mt.palette_meta). ensures: when num_sq == 0 the derived step list equals libjxl's DefaultSqueezeParameters "
@@ -10,14 +19,28 @@ _DSQ = ("requires: channel list non-empty, nb_meta_channels < number of channels
         "vertical first iff !(w > h) and h > 8, then alternating horizontal (while w > 8) / vertical (while h > 8) with w, h = ceil half "
         "per step; number of steps == chroma + ceil(log2(w/8)) + ceil(log2(h/8)) (closed form); the channel list is not modified; "
         "explicit parameters (num_sq > 0) are kept. ")
+_PUSH = (" [Vec::push replaced by a capacity-checked no-realloc model on a pre-reserved parameter vector, justified by "
+         "mt.vec_push_real / mt.vec_push_model; growth of the real capacity-0 vector is exercised by mt.sq_default_params_count]")
 for _n, _what in (("gray", "1 channel"), ("rgb", "3 channels"), ("meta", "1 meta channel + 3 resp. 2 channels"),
                   ("rgba", "4 resp. 2 channels")):
-    K("mt.sq_default_params_" + _n, ["C03", "C01"], "jxl-modular", MT_T, MT_TM, "sq_default_params_full_" + _n,
-      "bounded:%s; complete over all 32-bit channel sizes; parameter vector pre-reserved (capacity 64, so Vec growth is not modelled)" % _what,
-      ["Squeeze::set_default_params"], _DSQ, timeout=300)
-K("mt.sq_default_params_realloc", ["C03", "C01"], "jxl-modular", MT_T, MT_TM, "sq_default_params_realloc",
-  "bounded:3 channels, sizes <= 64 (<= 8 steps); parameter vector as the parser leaves it (capacity 0, grows by reallocation)",
-  ["Squeeze::set_default_params"], _DSQ, timeout=300)
+    _MT("mt.sq_default_params_" + _n, ["C03", "C01"], MT_T, MT_TM, "sq_default_params_" + _n,
+        "bounded:%s; channel sizes <= 1024 (<= 16 steps), all other fields symbolic" % _what,
+        ["Squeeze::set_default_params"], _DSQ + _PUSH, timeout=300)
+_MT("mt.sq_default_params_64k", ["C03", "C01"], MT_T, MT_TM, "sq_default_params_64k_rgb",
+    "bounded:3 channels; channel sizes <= 65536 (<= 28 steps)", ["Squeeze::set_default_params"], _DSQ + _PUSH, tier="thorough", timeout=1200)
+_MT("mt.sq_default_params_full", ["C03", "C01"], MT_T, MT_TM, "sq_default_params_full_rgb",
+    "bounded:3 channels; complete over all 32-bit channel sizes", ["Squeeze::set_default_params"], _DSQ + _PUSH, tier="thorough", timeout=1200)
+_MT("mt.sq_default_params_explicit", ["C03", "C01"], MT_T, MT_TM, "sq_default_params_explicit", "bounded:3 channels, one explicit step",
+    ["Squeeze::set_default_params"], "num_sq > 0: the parsed parameter list is returned unchanged")
+_MT("mt.sq_default_params_count", ["C03", "C01"], MT_T, MT_TM, "sq_default_params_count_full",
+    "bounded:3 channels and 1 channel; complete over all 32-bit channel sizes; library Vec::push on the parser's capacity-0 vector",
+    ["Squeeze::set_default_params"],
+    "number of derived steps == (2 iff > 2 non-meta channels and channel nb_meta+1 has the size of channel nb_meta) + ceil(log2(w/8)) + "
+    "ceil(log2(h/8)) (0 below 9) for ALL 32-bit sizes; the loop terminates within 30 iterations; no overflow in the halving")
+_MT("mt.vec_push_real", ["C03"], MT_T, MT_TM, "vec_push_real_contract", "bounded:Vec<SqueezeParams> of capacity 4, length 0..3",
+    ["Vec::push"], "library push: appends x, keeps earlier elements")
+_MT("mt.vec_push_model", ["C03"], MT_T, MT_TM, "vec_push_model_contract", "bounded:Vec<SqueezeParams> of capacity 4, length 0..3",
+    ["push_model"], "push model used by the mt.sq_default_params_* rows: same postcondition as mt.vec_push_real")
 
 # ---- transform.rs: channel-list rewriting -------------------------------------------------------
 _SQS = ("requires nb_meta_channels < 3 = number of channels; sizes, shifts (any i32) and direction symbolic. ensures: Ok iff libjxl's "
@@ -26,27 +49,27 @@ _SQS = ("requires nb_meta_channels < 3 = number of channels; sizes, shifts (any 
         "shift of that direction +1 on both unless negative, residuals inserted right after begin_c+num_c-1 (in place) or appended (not in "
         "place) in channel order, every other channel unchanged, nb_meta_channels += num_c iff begin_c < nb_meta_channels, and "
         "nb_meta_channels < number of channels still holds")
-K("mt.sq_meta_step_in_place", ["C03", "C01"], "jxl-modular", MT_T, MT_TM, "sq_meta_step_in_place",
+_MT("mt.sq_meta_step_in_place", ["C03", "C01"], MT_T, MT_TM, "sq_meta_step_in_place",
   "bounded:channel list of 3, one step, every (begin_c, num_c) with begin_c <= 3, num_c <= 4 incl. out-of-range ones; in_place = true",
   ["Squeeze::transform_channel_info"], _SQS, timeout=300)
-K("mt.sq_meta_step_appended", ["C03", "C01"], "jxl-modular", MT_T, MT_TM, "sq_meta_step_appended",
+_MT("mt.sq_meta_step_appended", ["C03", "C01"], MT_T, MT_TM, "sq_meta_step_appended",
   "bounded:channel list of 3, one step, every (begin_c, num_c) with begin_c <= 3, num_c <= 4 incl. out-of-range ones; in_place = false",
   ["Squeeze::transform_channel_info"], _SQS, timeout=300)
-K("mt.sq_meta_step_covers", ["C03"], "jxl-modular", MT_T, MT_TM, "sq_meta_step_covers",
+_MT("mt.sq_meta_step_covers", ["C03"], MT_T, MT_TM, "sq_meta_step_covers",
   "bounded:channel list of 3, step (begin_c 0, num_c 2)", ["Squeeze::transform_channel_info"],
   "vacuity guards of mt.sq_meta_step_*: each acceptance / rejection reason is reachable; acceptance == MetaSqueeze", timeout=300)
-K("mt.palette_meta", ["C03", "C01"], "jxl-modular", MT_T, MT_TM, "palette_meta_contract",
+_MT("mt.palette_meta", ["C03", "C01"], MT_T, MT_TM, "palette_meta_contract",
   "bounded:channel list of 4, every (begin_c, num_c) shape incl. out-of-range ones; sizes / shifts / nb_colours / nb_deltas symbolic",
   ["Palette::transform_channel_info"],
   "requires nb_meta_channels < 4, nb_colours <= 70911, nb_deltas <= 66816 (parser ranges). ensures: Ok iff begin_c+num_c <= #channels, not "
   "(begin_c < nb_meta <= endc), and all of begin_c..=endc have the size of channel begin_c (code compares sizes only; libjxl's "
   "CheckEqualChannels additionally compares shifts -- reported); Err is InvalidPaletteParams; on Ok: list = [nb_colours x num_c, "
   "shift -1] ++ old list without begin_c+1..=endc; nb_meta_channels += 1, or += 2 - num_c inside the meta channels; nb_meta < #channels")
-K("mt.rct_meta", ["C03", "C01"], "jxl-modular", MT_T, MT_TM, "rct_meta_contract",
+_MT("mt.rct_meta", ["C03", "C01"], MT_T, MT_TM, "rct_meta_contract",
   "bounded:channel lists of 2, 3, 4; begin_c 0..2; rct_type any parser value (<= 73)", ["Rct::transform_channel_info"],
   "Ok iff begin_c + 3 <= #channels and the three channels have equal sizes; Err is InvalidRctParams; the channel list is unchanged. "
   "(The code accepts rct_type 42..73, RCT across the meta boundary and unequal shifts; libjxl rejects those -- reported.)")
-K("mt.sq_default_applied_rgb", ["C03", "C01"], "jxl-modular", MT_T, MT_TM, "sq_default_applied_rgb",
+_MT("mt.sq_default_applied_rgb", ["C03", "C01"], MT_T, MT_TM, "sq_default_applied_rgb",
   "bounded:3 equal channels w x h, 1 <= w, h <= 16", ["TransformInfo::prepare_transform_info", "Squeeze::set_default_params", "Squeeze::transform_channel_info"],
   "prepare_transform_info of a default squeeze (num_sq = 0) is Ok; resulting list has 7 + 3*(steps) channels, luma / chroma sizes and shifts "
   "are the ceil halves per step, the non-in-place chroma residuals stay at the end of the list", timeout=300)
